@@ -20,8 +20,11 @@ import threading
 import time
 from pathlib import Path
 
+import copy
+
 import kdrv
-from kdrv import enums
+from kdrv import enums, AT
+from kmip.core import policy as core_policy
 from kmip.services.server import engine as engine_mod
 from vlib import coqprint as cp
 
@@ -35,6 +38,22 @@ USERS = [('alice', 101), ('bob', 202), ('carol', 303), ('dave', 404)]
 VERSIONS = [(1, 0), (1, 1), (1, 2), (1, 4), (2, 0)]
 CODES = {'ITEM_NOT_FOUND': 1, 'PERMISSION_DENIED': 2, 'OPERATION_NOT_SUPPORTED': 3}
 OPC = {'create': 1, 'get': 10, 'attrlist': 12, 'activate': 18, 'destroy': 20, 'discover': 30, 'query': 24}
+OPC['getstate'] = 11
+PUBLIC = -1          # owner code of objects stored under the ALLOW_ALL operation policy 'open' (Interleave.v PUBLIC)
+
+
+def open_policies():
+    """The built-in policies plus 'open': every client may perform every operation (so that sessions of different
+    identities act on the same objects)."""
+    pol = copy.deepcopy(core_policy.policies)
+    o = copy.deepcopy(pol['default'])
+    for ot, ops in o['preset'].items():
+        for op in ops:
+            ops[op] = enums.Policy.ALLOW_ALL
+    pol['open'] = o
+    return pol
+
+
 QF = enums.QueryFunction
 FNSETS = [[QF.QUERY_OPERATIONS, QF.QUERY_OBJECTS], [QF.QUERY_OPERATIONS], [QF.QUERY_SERVER_INFORMATION, QF.QUERY_OBJECTS],
           [QF.QUERY_OPERATIONS, QF.QUERY_OBJECTS, QF.QUERY_SERVER_INFORMATION]]
@@ -115,6 +134,36 @@ def static_checks(ctx):
     for name, fn in methods.items():
         if 'self._lock' in ast.unparse(fn) and name not in ('__init__', '_synchronize'):
             problems.append('method %s manipulates self._lock itself' % name)
+    # the database session: a plain sessionmaker, one session opened and closed per request inside _process_batch
+    fac_ok = False
+    for n in ast.walk(init) if init else []:
+        if isinstance(n, ast.Assign) and any(isinstance(t, ast.Attribute) and t.attr == '_data_store_session_factory' for t in n.targets):
+            v = n.value
+            fac_ok = isinstance(v, ast.Call) and isinstance(v.func, ast.Attribute) and v.func.attr == 'sessionmaker' and \
+                not any(kw.arg == 'class_' for kw in v.keywords)
+    if not fac_ok:
+        problems.append('__init__: _data_store_session_factory is not a plain sqlalchemy.orm.sessionmaker(bind=...)')
+    pb = methods.get('_process_batch')
+    per_request = False
+    for n in ast.walk(pb) if pb else []:
+        if isinstance(n, ast.With):
+            for i in n.items:
+                c = i.context_expr
+                if isinstance(c, ast.Call) and isinstance(c.func, ast.Attribute) and c.func.attr == '_data_store_session_factory' \
+                        and i.optional_vars is not None:
+                    var = i.optional_vars.id if isinstance(i.optional_vars, ast.Name) else None
+                    for b in ast.walk(n):
+                        if isinstance(b, ast.Assign) and any(isinstance(t, ast.Attribute) and t.attr == '_data_session' for t in b.targets) \
+                                and isinstance(b.value, ast.Name) and b.value.id == var:
+                            per_request = True
+    if not per_request:
+        problems.append('_process_batch does not open its own database session with `with self._data_store_session_factory() as s: '
+                        'self._data_session = s` (a session that outlives the request can serve stale objects)')
+    writers = [m for m, fn in methods.items() if any(isinstance(b, ast.Assign) and any(isinstance(t, ast.Attribute) and t.attr == '_data_session'
+                                                                                         and isinstance(t.value, ast.Name) and t.value.id == 'self'
+                                                                                         for t in b.targets) for b in ast.walk(fn))]
+    if writers != ['_process_batch']:
+        problems.append('_data_session is assigned in %s (expected: only in _process_batch)' % writers)
     # public entry points other than process_request must not reach the shared fields
     for name, fn in methods.items():
         if name.startswith('_') or name == 'process_request':
@@ -184,6 +233,8 @@ def build_items(spec):
             out.append(kdrv.discover_versions())
         elif k == 'query':
             out.append(kdrv.query(FNSETS[op[1]]))
+        elif k == 'getstate':
+            out.append(kdrv.get_attributes(None if op[1] is None else str(op[1]), ['Name', 'State']))
     return out
 
 
@@ -202,7 +253,8 @@ def coq_req(version, spec):
         elif k == 'query':
             ops.append('(QQuery %s)' % cp.boolean(QF.QUERY_OPERATIONS in FNSETS[op[1]]))
         else:
-            ops.append('(%s %s)' % ({'get': 'QGet', 'activate': 'QActivate', 'destroy': 'QDestroy', 'attrlist': 'QAttrList'}[k], coq_opt(op[1])))
+            ops.append('(%s %s)' % ({'get': 'QGet', 'activate': 'QActivate', 'destroy': 'QDestroy', 'attrlist': 'QAttrList',
+                                     'getstate': 'QGetState'}[k], coq_opt(op[1])))
     return '(mkReq %s [%s])' % (cp.z(version[0] * 10 + version[1]), '; '.join(ops))
 
 
@@ -223,6 +275,10 @@ def project_response(resp, spec):
                 extra = 1 if 'Sensitive' in (p.get('attribute_names') or []) else 0
             if opname == 'QUERY':
                 extra = len(p.get('operations') or [])
+            if opname == 'GET_ATTRIBUTES':
+                for a in bi.response_payload.attributes:
+                    if a.attribute_name.value == 'State':
+                        extra = a.attribute_value.value.value
             try:
                 uid = int(uid) if uid is not None else 0
             except (TypeError, ValueError):
@@ -233,10 +289,17 @@ def project_response(resp, spec):
     return out
 
 
-def gen_queue(rng, n_req, known_uids, max_uid):
-    """One client's request sequence: operations on its own, others', destroyed and never-issued identifiers."""
+def gen_queue(rng, n_req, known_uids, max_uid, shared=()):
+    """One client's request sequence: operations on its own, others', destroyed and never-issued identifiers, and
+    read / conditional-write / read patterns on objects every client may use (`shared`)."""
     q = []
     for _ in range(n_req):
+        c = rng.random()
+        if shared and c < 0.30:
+            u = rng.choice(list(shared))
+            q.append(rng.choice([[('getstate', u)], [('getstate', u)], [('activate', u)], [('getstate', u), ('activate', u)],
+                                 [('activate', u), ('getstate', u)], [('destroy', u)]]))
+            continue
         c = rng.random()
 
         def uid():
@@ -280,27 +343,79 @@ def describe_diff(got, ref):
     return 'different'
 
 
+def prepopulate(eng, prepop):
+    store0 = []
+    for user, kind, nm in prepop:
+        if kind == 'shared':
+            r = eng.request([kdrv.create(names=[nm], extra=[kdrv.attr(AT.OPERATION_POLICY_NAME, 'open')])], user=user)
+            store0.append((int(r['items'][0]['payload']['unique_identifier']), PUBLIC, 1))
+        else:
+            r = eng.request([kdrv.create()], user=user)
+            store0.append((int(r['items'][0]['payload']['unique_identifier']), dict(USERS)[user], 1))
+    return store0
+
+
+def final_store_of(eng):
+    dump = eng.dump()
+    state = {r['uid']: r['state'] for r in dump.get('crypto_objects', [])}
+    codes = dict(USERS)
+    return sorted((r['uid'], PUBLIC if r['operation_policy_name'] == 'open' else codes.get(r['owner'], 0), state.get(r['uid'], 0))
+                  for r in dump.get('managed_objects', []))
+
+
+def one_at_a_time_reference(ctx, name, prepop, users, versions, queues, entries):
+    """The same requests in the same order of entry, served strictly one at a time by a second engine, EACH REQUEST IN A
+    THREAD OF ITS OWN (nothing a thread, connection or session may have kept from an earlier request can play a part).
+    -> (responses in that order, final store)."""
+    eng = kdrv.Engine(workdir=str(ctx.work / (name + '_ref')), policies=open_policies())
+    try:
+        prepopulate(eng, prepop)
+        pos = [0] * len(users)
+        out = []
+        for t in entries:
+            i = pos[t]
+            pos[t] += 1
+            m = eng.build(build_items(queues[t][i]), version=versions[t])
+            box = {}
+
+            def one():
+                try:
+                    box['r'] = eng.engine.process_request(m, (users[t][0], None))
+                except Exception as e:  # noqa
+                    box['e'] = repr(e)
+            th = threading.Thread(target=one)
+            th.start()
+            th.join(60)
+            out.append(project_response(box['r'][0], queues[t][i]) if 'r' in box else [('error', box.get('e'))])
+        return out, final_store_of(eng)
+    finally:
+        eng.close()
+
+
 # ---------------------------------------------------------------------------------- one concurrent run
-def concurrent_run(ctx, name, rng, n_clients, n_req, with_error_responses=True, fixed=None, sequential=None):
+def concurrent_run(ctx, name, rng, n_clients, n_req, with_error_responses=True, fixed=None, sequential=None, reference=True):
     """fixed = (versions, queues): a prescribed plan instead of a generated one; sequential = list of client numbers: the
     clients are served strictly in that arrival order (one request at a time, no threads racing)."""
-    eng = kdrv.Engine(workdir=str(ctx.work / name))
+    policies = open_policies()
+    eng = kdrv.Engine(workdir=str(ctx.work / name), policies=policies)
     users = USERS[:n_clients]
     versions = [rng.choice(VERSIONS) for _ in users]
     if len(set(versions)) == 1:
         versions[0] = (1, 0) if versions[0] != (1, 0) else (2, 0)
     if fixed is not None:
         versions = list(fixed[0])
-    # sequential preparation: every client owns a few objects (part of the model's initial store)
-    store0 = []
+    # sequential preparation (part of the model's initial store): two named objects under the ALLOW_ALL policy that
+    # every client may read and change, then a few objects owned by each client
+    prepop = [('alice', 'shared', 'shared-%d' % k) for k in range(2)]
     for (user, code) in users:
-        for _ in range(rng.randint(1, 3)):
-            r = eng.request([kdrv.create()], user=user)
-            store0.append((int(r['items'][0]['payload']['unique_identifier']), code, 1))
+        prepop += [(user, 'own', None)] * rng.randint(1, 3)
+    store0 = prepopulate(eng, prepop)
+    shared = [u for u, c, _ in store0 if c == PUBLIC]
     known = [u for u, _, _ in store0]
-    queues = [gen_queue(rng, n_req, known, len(store0) + n_clients * n_req) for _ in users]
+    queues = [gen_queue(rng, n_req, known, len(store0) + n_clients * n_req, shared) for _ in users]
     if fixed is not None:
-        queues = [list(q) for q in fixed[1]]
+        queues = [[[(op[0], shared[int(op[1][1:])]) if len(op) > 1 and isinstance(op[1], str) else op for op in spec] for spec in q]
+                  for q in fixed[1]]
     msgs = [[eng.build(build_items(spec), version=versions[t]) for spec in queues[t]] for t in range(n_clients)]
     log = []
     install_tracer(eng.engine, log)
@@ -403,15 +518,15 @@ def concurrent_run(ctx, name, rng, n_clients, n_req, with_error_responses=True, 
                 w = dict(desc, client=t, request=i, spec=spec, response=obs)
                 if sp[0] == 'create' and o[1] == 0:
                     last_created = o[2]
-                if sp[0] in ('get', 'attrlist', 'activate', 'destroy'):
+                if sp[0] in ('get', 'attrlist', 'activate', 'destroy', 'getstate'):
                     target = sp[1] if sp[1] is not None else last_created
-                    if o[1] == 0 and owner.get(o[2]) != me:
+                    if o[1] == 0 and owner.get(o[2]) not in (me, PUBLIC):
                         ctx.violation({'class': 'identity-crossed', 'op': sp[0]}, w,
                                       'client %s was served %s on object %s owned by %s' % (users[t][0], sp[0], o[2], owner.get(o[2])))
                     if o[1] == 0 and target is not None and o[2] != target:
                         ctx.violation({'class': 'placeholder-crossed', 'op': sp[0]}, w,
                                       '%s addressed object %s but the answer is about %s' % (sp[0], target, o[2]))
-                    if o[1] == 2 and sp[0] in ('get', 'attrlist') and owner.get(target) == me:
+                    if o[1] == 2 and sp[0] in ('get', 'attrlist', 'getstate') and owner.get(target) in (me, PUBLIC):
                         ctx.violation({'class': 'identity-crossed', 'op': sp[0], 'direction': 'denied-own'}, w,
                                       'client %s was denied %s on its own object %s' % (users[t][0], sp[0], target))
                 if sp[0] in ('query', 'discover'):
@@ -437,10 +552,7 @@ def concurrent_run(ctx, name, rng, n_clients, n_req, with_error_responses=True, 
                                   'GetAttributeList under KMIP %s %s the Sensitive attribute' % (versions[t], 'lists' if o[3] else 'omits'))
                 ctx.count('op.%s.%d' % (sp[0], o[1]))
     # ---- (2) correspondence case ----------------------------------------------------------------------
-    dump = eng.dump()
-    state = {r['uid']: r['state'] for r in dump.get('crypto_objects', [])}
-    codes = dict(USERS)
-    final = sorted((r['uid'], codes.get(r['owner'], 0), state.get(r['uid'], 0)) for r in dump.get('managed_objects', []))
+    final = final_store_of(eng)
     nxt = eng.next_uid()
     eng.close()
     if len(entries) != sum(len(q) for q in queues):
@@ -453,6 +565,27 @@ def concurrent_run(ctx, name, rng, n_clients, n_req, with_error_responses=True, 
         pos[t] += 1
         r = results[t][i]
         responses.append(project_response(r[0], queues[t][i]) if r else [])
+    if reference:
+        ref_resp, ref_final = one_at_a_time_reference(ctx, name, prepop, users, versions, queues, entries)
+        ctx.count('reference.runs')
+        pos2 = [0] * n_clients
+        for k, t in enumerate(entries):
+            i = pos2[t]
+            pos2[t] += 1
+            if [tuple(x) for x in responses[k]] != [tuple(x) for x in ref_resp[k]]:
+                ctx.violation({'class': 'not-one-at-a-time', 'op': queues[t][i][0][0]},
+                              dict(desc, order_of_entry=[users[x][0] for x in entries], position=k, client=users[t][0], request=queues[t][i],
+                                   answered=responses[k], one_at_a_time=ref_resp[k],
+                                   how='every client in its own long-lived thread against one engine; reference = the same requests in '
+                                       'the same order of entry on a second engine, each in a fresh thread'),
+                              'request %d in order of entry (%s: %s) was answered %s; served one at a time in that order the answer is %s' % (
+                                  k, users[t][0], queues[t][i], responses[k], ref_resp[k]))
+                break
+        else:
+            if ref_final != final:
+                ctx.violation({'class': 'not-one-at-a-time', 'op': 'final-store'},
+                              dict(desc, order_of_entry=[users[x][0] for x in entries], final_store=final, one_at_a_time=ref_final),
+                              'the final store differs from the one left by serving the same requests one at a time in order of entry')
     sh0 = '(mkShared 0 12 12 0 false None [%s] %s)' % ('; '.join('(mkObj %s %s %s)' % (cp.z(u), cp.z(c), cp.z(s)) for u, c, s in store0), cp.z(len(store0) + 1))
     case = 'CRun [%s] %s [%s] [%s] [%s] [%s] %s' % (
         '; '.join(cp.z(c) for _, c in users), sh0,
@@ -560,6 +693,141 @@ def run_probes(ctx):
             ctx.count('probe.%s.unlocked-body-crosses' % kind)
 
 
+# ---------------------------------------------------------------------------------- the session layer
+class TracedDict(dict):
+    """A plugin settings dictionary (reachable from every KmipSession) that logs writes."""
+    writes = None
+
+    def _log(self, how, key):
+        self.writes.append((how, key, threading.current_thread().name))
+
+    def __setitem__(self, k, v):
+        self._log('set', k)
+        dict.__setitem__(self, k, v)
+
+    def setdefault(self, k, d=None):
+        if k not in self:
+            self._log('setdefault', k)
+        return dict.setdefault(self, k, d)
+
+    def update(self, *a, **kw):
+        self._log('update', None)
+        dict.update(self, *a, **kw)
+
+    def pop(self, k, *d):
+        self._log('pop', k)
+        return dict.pop(self, k, *d)
+
+
+class RecordingEngine:
+    """Stands where KmipSession expects its engine: records under which credential each session's request reaches
+    process_request, then forwards to the real engine."""
+
+    def __init__(self, eng):
+        self.eng = eng
+        self.default_protocol_version = eng.engine.default_protocol_version
+        self.seen = []
+
+    def process_request(self, request, credential=None):
+        self.seen.append((threading.current_thread().name, credential))
+        return self.eng.engine.process_request(request, credential)
+
+    def build_error_response(self, version, reason, message):
+        return self.eng.engine.build_error_response(version, reason, message)
+
+
+def session_layer_probe(ctx):
+    """Two real KmipSession objects (fake transports, generated client certificates alice / bob) share the plugin
+    settings list exactly as KmipServer hands it to every session; authentication goes to a stubbed SLUGS service whose
+    answer to alice's FIRST question is held back until bob's whole request has been served.  Each request must reach the
+    engine under the identity and groups of ITS session; nothing reachable from both sessions may be written."""
+    import sessdrv
+    from kmip.services.server import session as session_mod
+    from kmip.services.server.auth import slugs as slugs_mod
+    eng = kdrv.Engine(workdir=str(ctx.work / 'sessions'))
+    rec = RecordingEngine(eng)
+    writes = []
+    cfg = TracedDict({'enabled': 'True', 'url': 'http://slugs.verif.test/'})
+    cfg.writes = writes
+    auth_settings = [('auth:slugs', cfg)]
+    before = dict(cfg)
+    groups = {'alice': ['group-of-alice'], 'bob': ['group-of-bob']}
+    parked, release = threading.Event(), threading.Event()
+    calls = []
+
+    class Resp:
+        def __init__(self, code, body):
+            self.status_code, self._b = code, body
+
+        def json(self):
+            return self._b
+
+    def fake_get(url, timeout=None):
+        who = threading.current_thread().name
+        calls.append((who, url))
+        user = url.rstrip('/').split('/users/')[1].split('/')[0]
+        if who == 'session-alice' and not parked.is_set():
+            parked.set()
+            release.wait(3)              # alice's first answer is held back while bob is served
+        if url.endswith('/groups'):
+            return Resp(200, {'groups': groups.get(user, [])})
+        return Resp(200 if user in groups else 404, {})
+
+    def one_session(user):
+        req = eng.build([kdrv.query()], version=(1, 2))
+        frame = sessdrv.encode_request(req, (1, 2))
+        conn = sessdrv.FakeConn(frame, [len(frame)], sessdrv.make_cert((user,), 'client'))
+        s = session_mod.KmipSession(rec, conn, ('192.0.2.%d' % (7 if user == 'alice' else 8), 5696), name='session-' + user,
+                                    enable_tls_client_auth=True, auth_settings=auth_settings)
+        s._logger.setLevel(100)
+        return s, conn
+
+    sa, ca = one_session('alice')
+    sb, cb = one_session('bob')
+    shared_objs = sorted(k for k, v in vars(sa).items() if k not in ('_engine', '_logger') and isinstance(v, (list, dict, set))
+                         and vars(sb).get(k) is v and v)
+    old_get = slugs_mod.requests.get
+    slugs_mod.requests.get = fake_get
+    errs = []
+
+    def loop(s):
+        try:
+            s._handle_message_loop()
+        except Exception as e:  # noqa
+            errs.append((s.name, repr(e)))
+    try:
+        ta = threading.Thread(target=loop, args=(sa,), name='session-alice')
+        tb = threading.Thread(target=loop, args=(sb,), name='session-bob')
+        ta.start()
+        parked.wait(5)
+        tb.start()
+        tb.join(10)
+        release.set()
+        ta.join(10)
+    finally:
+        slugs_mod.requests.get = old_get
+        eng.close()
+    ctx.count('session-layer.probes')
+    ctx.count('session-layer.objects-shared-between-sessions', len(shared_objs))
+    seen = dict(rec.seen)
+    sched = ['session-alice (certificate CN=alice) starts authenticating; the SLUGS answer to her first question is held back',
+             'session-bob (certificate CN=bob) is authenticated and served completely', 'session-alice continues']
+    wit = {'schedule': sched, 'slugs_calls': calls, 'reached_engine_as': {k: list(v) if v else v for k, v in seen.items()},
+           'shared_between_sessions': shared_objs, 'errors': errs,
+           'how_to_replay': 'harness/c10.py session_layer_probe (two KmipSession objects, shared auth_settings, stubbed requests.get)'}
+    for name, user in (('session-alice', 'alice'), ('session-bob', 'bob')):
+        want = (user, groups[user])
+        got = seen.get(name)
+        if got is None or (got[0], list(got[1] or [])) != (want[0], want[1]):
+            ctx.violation({'class': 'identity-crossed', 'how': 'session-layer', 'where': 'authenticate'}, dict(wit, session=name, expected=want, got=got),
+                          'the request of %s reached the engine under the identity %r (expected %r): authentication of two sessions '
+                          'running at the same time exchanged identities' % (name, got, want))
+    if writes:
+        ctx.violation({'class': 'shared-session-state-written', 'key': str(writes[0][1])}, dict(wit, writes=writes, settings_before=before),
+                      'a session wrote %r into the plugin settings shared by all sessions (outside the engine lock): %s' % (
+                          writes[0][1], writes[:3]))
+
+
 # ---------------------------------------------------------------------------------- check
 def run(ctx):
     quick = ctx.tier == 'quick'
@@ -577,10 +845,13 @@ def run(ctx):
         'The micro-operation lists of Conc/Interleave.v are a hand model of process_request; the tie is the lock-set discipline '
         '(every access to the six shared fields is made while _lock is owned - checked on every traced access of every run, and '
         'statically by ast for entry points) plus the behavioural comparison of complete runs in Coq.',
+        'Session layer: two real KmipSession objects with fake transports and a stubbed SLUGS service (requests.get replaced for the '
+        'duration of the probe); the plugin settings dictionary they share is a dict subclass that logs writes.',
         'Instrumentation attached from outside: instance class swapped for a tracing subclass; _verify_credential/_set_protocol_version '
         'wrapped on the instance for the forced schedules.']
     ctx.prove('props/C10.v')
     run_probes(ctx)          # first: a hit here is a concrete schedule (goes into the replay file)
+    session_layer_probe(ctx)
     n_runs = 60 if quick else 400
     cases, meta = [], []
     # scheduled runs of read-only requests whose answer depends on the session's version, from sessions of different
@@ -596,6 +867,20 @@ def run(ctx):
         if c is not None:
             cases.append(c)
             meta.append(dict(m, arrival_order=[USERS[t][0] for t in order]))
+    # read / change / read again across sessions on shared named objects (ALLOW_ALL policy), every session in its own
+    # long-lived thread, strictly alternating requests
+    A_q = [[('activate', 'S0')], [('getstate', 'S0')], [('getstate', 'S1')], [('destroy', 'S1')]]
+    B_q = [[('getstate', 'S0')], [('getstate', 'S0')], [('activate', 'S0')], [('destroy', 'S0')], [('getstate', 'S1')],
+           [('getstate', 'S1')], [('activate', 'S1')]]
+    rmr = [('rmr0', [(1, 2), (1, 4)], [A_q, B_q], [1, 0, 1, 1, 0, 1, 0, 1, 0, 1, 1]),
+           ('rmr1', [(2, 0), (1, 0)], [B_q, A_q], [0, 1, 0, 0, 1, 0, 1, 0, 1, 0, 0]),
+           ('rmr2', [(1, 2), (1, 4), (1, 1)], [A_q, B_q, [[('getstate', 'S0')], [('getstate', 'S0')], [('getstate', 'S1')], [('getstate', 'S1')]]],
+            [1, 2, 0, 1, 2, 1, 1, 0, 1, 2, 0, 1, 0, 2, 1])]
+    for nm, vs, qs, order in rmr:
+        c, m = concurrent_run(ctx, nm, ctx.subrng(nm), len(vs), 0, fixed=(vs, qs), sequential=order)
+        if c is not None:
+            cases.append(c)
+            meta.append(m)
     for k in range(4 if quick else 20):
         c, m = concurrent_run(ctx, 'rr%02d' % k, ctx.subrng('rr/%d' % k), 4, 0, fixed=(ro_versions, [ro_queue] * 4))
         if c is not None:
@@ -605,7 +890,7 @@ def run(ctx):
         rng = ctx.subrng('run/%d' % k)
         n_clients = rng.choice([2, 2, 3, 3, 4])
         n_req = rng.choice([3, 4, 5, 6]) if quick else rng.choice([4, 6, 8, 10])
-        c, m = concurrent_run(ctx, 'r%03d' % k, rng, n_clients, n_req)
+        c, m = concurrent_run(ctx, 'r%03d' % k, rng, n_clients, n_req, reference=(not quick or k % 4 == 0))
         if c is not None:
             cases.append(c)
             meta.append(m)
